@@ -98,8 +98,21 @@ class StringContainsToConcat:
 
     def global_mutations(self, node, input_):
         var = node[1]
-        k1 = f'{var}_prefix'
-        k2 = f'{var}_suffix'
+        # find names that are single symbols and not in use yet
+        if not var.is_leaf() or is_const(var):
+            base = f'x{node.id}'
+        elif is_piped_symbol(var):
+            base = var[1:-1]
+        else:
+            base = var.data
+        quote = '|' if is_piped_symbol(var) else ''
+        suffix = ''
+        while True:
+            k1 = f'{quote}{base}_prefix{suffix}{quote}'
+            k2 = f'{quote}{base}_suffix{suffix}{quote}'
+            if get_sort(Node(k1)) is None and get_sort(Node(k2)) is None:
+                break
+            suffix += '_'
         vars = [
             Node('declare-const', k1, 'String'),
             Node('declare-const', k2, 'String'),
